@@ -1,4 +1,5 @@
 import Codec.Props
+import Codec.PropsRender
 open Codec
 #print axioms C14_decode_total
 #print axioms C14_reward_shape_partial
@@ -15,3 +16,5 @@ open Codec
 #print axioms C15_stale_elements_example
 #print axioms C15_long_hash_example
 #print axioms C15_id_checked
+#print axioms C15_render_injective
+#print axioms C15_ids_bind
